@@ -16,14 +16,23 @@ import (
 	"context"
 	"errors"
 	"fmt"
+	"io"
+	"os"
 	"runtime"
+	"slices"
 	"sort"
 	"strconv"
 	"strings"
 	"sync"
 	"time"
 
+	"github.com/shpandrak/shpanstream"
+	"github.com/shpandrak/shpanstream/integrations/file"
 	"github.com/shpandrak/shpanstream/stream"
+	"github.com/shpandrak/shpanstream/utils/jsonstream"
+	"github.com/shpandrak/shpanstream/utils/timeseries"
+	"github.com/shpandrak/shpanstream/utils/timeseries/tsquery"
+	"github.com/shpandrak/shpanstream/utils/timeseries/tsquery/datasource"
 )
 
 type pv struct {
@@ -209,10 +218,11 @@ func emod(a, k int64) int64 {
 }
 
 type pparser struct {
-	toks []string
-	pos  int
-	w    *pworld
-	err  error
+	tmpFiles []string
+	toks     []string
+	pos      int
+	w        *pworld
+	err      error
 }
 
 func (p *pparser) next() string {
@@ -440,6 +450,116 @@ func (p *pparser) pipe() stream.Stream[pv] {
 			cmp.Compare[int64],
 			src,
 		)
+	// ---- operators used only by SPEC cases (decided by the spec predicate on the real code; not in the Lean model) ----
+	case "jinner", "jleft", "jfull":
+		k := p.int()
+		subs := make([]stream.Stream[pv], k)
+		for i := 0; i < k; i++ {
+			subs[i] = p.pipe()
+		}
+		cmpKey := func(a, b pv) int { return cmp.Compare(a.key(), b.key()) }
+		switch t {
+		case "jinner":
+			return stream.JoinMultipleSortedStreams(subs, cmpKey, func(vs []pv) pv { return flattenRow(vs) })
+		case "jleft":
+			return stream.LeftJoinMultipleSortedStreams(subs, cmpKey, func(l pv, others []*pv) pv {
+				return flattenRow(append([]pv{l}, derefOr(others)...))
+			})
+		default:
+			return stream.FullJoinMultipleSortedStreams(subs, cmpKey, func(vs []*pv) pv { return flattenRow(derefOr(vs)) })
+		}
+	case "join2", "ljoin2":
+		l, r := p.pipe(), p.pipe()
+		keyf := func(v pv) int64 { return v.key() }
+		if t == "join2" {
+			return stream.Map(stream.JoinSortedStreams(l, r, keyf, keyf, cmp.Compare[int64]),
+				func(tp shpanstream.Tuple2[pv, pv]) pv { return flattenRow([]pv{tp.A, tp.B}) })
+		}
+		return stream.Map(stream.LeftJoinSortedStreams(l, r, keyf, keyf, cmp.Compare[int64]),
+			func(tp shpanstream.Tuple2[pv, *pv]) pv {
+				return flattenRow(append([]pv{tp.A}, derefOr([]*pv{tp.B})...))
+			})
+	case "sample":
+		n := p.int()
+		return p.pipe().RandomSample(n) // collector-backed stream: its Open materialises the source
+	case "file", "rfile":
+		// StreamFromFile over a temp file with one number per line (file provider; descriptor leaks show as leak=)
+		xs, err := parseInts(p.next())
+		if err != nil && p.err == nil {
+			p.err = err
+		}
+		f, ferr := os.CreateTemp("", "shpanverif-*.txt")
+		if ferr != nil {
+			p.err = ferr
+			return stream.Empty[pv]()
+		}
+		for _, x := range xs {
+			fmt.Fprintf(f, "%d\n", x)
+		}
+		f.Close()
+		p.tmpFiles = append(p.tmpFiles, f.Name())
+		return stream.MapWithErr(file.StreamFromFile(f.Name(), t == "rfile"), func(b []byte) (pv, error) {
+			n, err := strconv.ParseInt(strings.TrimSpace(string(b)), 10, 64)
+			return pv{I: n}, err
+		})
+	case "fromiter":
+		xs, err := parseInts(p.next())
+		if err != nil && p.err == nil {
+			p.err = err
+		}
+		return stream.Map(stream.FromIterator(slices.Values(xs)), func(x int64) pv { return pv{I: x} })
+	case "jsonarr":
+		r := p.int()
+		xs, err := parseInts(p.next())
+		if err != nil && p.err == nil {
+			p.err = err
+		}
+		parts := make([]string, len(xs))
+		for i, x := range xs {
+			parts[i] = strconv.FormatInt(x, 10)
+		}
+		doc := "[" + strings.Join(parts, ",") + "]"
+		return stream.Map(jsonstream.ReadJsonArray[int64](func(ctx context.Context) (io.ReadCloser, error) {
+			if err := w.call(); err != nil {
+				w.ev(r, 'o')
+				return nil, err
+			}
+			w.ev(r, 'O')
+			return &probeReadCloser{Reader: strings.NewReader(doc), w: w, r: r}, nil
+		}), func(x int64) pv { return pv{I: x} })
+	case "align", "alignsum", "adelta", "gapfill", "dsalign":
+		d := p.int()
+		period := timeseries.NewFixedAlignmentPeriod(time.Duration(d)*time.Second, time.UTC)
+		recs := stream.Map(p.pipe(), func(v pv) timeseries.TsRecord[int64] {
+			return timeseries.TsRecord[int64]{Timestamp: time.Unix(v.key(), 0).UTC(), Value: v.key()}
+		})
+		back := func(r timeseries.TsRecord[int64]) pv { return pv{IsArr: true, A: []int64{r.Timestamp.Unix(), r.Value}} }
+		switch t {
+		case "align":
+			return stream.Map(timeseries.AlignStream(recs, period), back)
+		case "alignsum":
+			return stream.Map(timeseries.AlignReduceStream(recs, period, timeseries.Sum[int64]), back)
+		case "adelta":
+			return stream.Map(timeseries.AlignDeltaStream(recs, period), back)
+		case "gapfill":
+			return stream.Map(timeseries.NewTsGapFillerStream(timeseries.AlignStream(recs, period), period, timeseries.FillModeForwardFill,
+				nil, func(v int64) int64 { return v }), back)
+		default:
+			meta, _ := tsquery.NewFieldMeta("f", tsquery.DataTypeInteger, true)
+			anyRecs := stream.Map(recs, func(r timeseries.TsRecord[int64]) timeseries.TsRecord[any] {
+				return timeseries.TsRecord[any]{Timestamp: r.Timestamp, Value: r.Value}
+			})
+			ds, _ := datasource.NewStaticDatasource(*meta, anyRecs)
+			res, err := datasource.NewFilteredDataSource(ds, datasource.NewInterpolatingAlignerFilter(period, timeseries.FillModeLinear)).
+				Execute(context.Background(), time.Unix(-1<<40, 0), time.Unix(1<<40, 0))
+			if err != nil {
+				return stream.Error[pv](err)
+			}
+			return stream.Map(res.Data(), func(r timeseries.TsRecord[any]) pv {
+				v, _ := r.Value.(int64)
+				return pv{IsArr: true, A: []int64{r.Timestamp.Unix(), v}}
+			})
+		}
 	default:
 		if p.err == nil {
 			p.err = fmt.Errorf("bad pipe token %q", t)
@@ -447,6 +567,44 @@ func (p *pparser) pipe() stream.Stream[pv] {
 		return stream.Empty[pv]()
 	}
 }
+
+// countFds: open file descriptors of this process (file provider leak detector)
+func countFds() int {
+	ents, err := os.ReadDir("/proc/self/fd")
+	if err != nil {
+		return -1
+	}
+	return len(ents)
+}
+
+func fdLeak(before int) int {
+	after := countFds()
+	if before < 0 || after < 0 || after <= before {
+		return 0
+	}
+	return after - before
+}
+
+func derefOr(ps []*pv) []pv {
+	out := make([]pv, len(ps))
+	for i, q := range ps {
+		if q != nil {
+			out[i] = *q
+		} else {
+			out[i] = pv{I: -1}
+		}
+	}
+	return out
+}
+
+// probeReadCloser: the io.ReadCloser handed to the JSON providers; its Close is the resource's close event
+type probeReadCloser struct {
+	io.Reader
+	w *pworld
+	r int
+}
+
+func (p *probeReadCloser) Close() error { p.w.ev(p.r, 'C'); return nil }
 
 func classifyErr(err error) string {
 	switch {
@@ -470,6 +628,22 @@ func execPipe(caseText string) (obs string) {
 			obs = fmt.Sprintf("harness-panic %v", rv)
 		}
 	}()
+	if strings.HasPrefix(caseText, "SPEC ") {
+		// spec-only cases: the observation carries the delivery of the SAME case without the fault (Go vs Go),
+		// so that "delivered before the fault is a prefix of the fault-free delivery" can be evaluated
+		body := strings.TrimPrefix(caseText, "SPEC ")
+		fds0 := countFds()
+		obsF := execPipe(body)
+		ff := "-"
+		if i := strings.LastIndex(body, " "); i >= 0 && !strings.HasSuffix(body, " nofault") {
+			twin := body[:i] + " nofault"
+			o2 := execPipe(twin)
+			if f := strings.Fields(o2); len(f) >= 2 {
+				ff = f[1]
+			}
+		}
+		return obsF + " | ff=" + ff + " leak=" + strconv.Itoa(fdLeak(fds0))
+	}
 	async := strings.HasPrefix(caseText, "ASYNC ")
 	caseText = strings.TrimPrefix(caseText, "ASYNC ")
 	baseGoroutines := runtime.NumGoroutine()
@@ -477,6 +651,11 @@ func execPipe(caseText string) (obs string) {
 	w := &pworld{events: map[int][]byte{}}
 	pp := &pparser{toks: strings.Fields(parts[0]), w: w}
 	s := pp.pipe()
+	defer func() {
+		for _, f := range pp.tmpFiles {
+			os.Remove(f)
+		}
+	}()
 	if pp.err != nil || pp.pos != len(pp.toks) {
 		return "bad-case"
 	}
